@@ -164,15 +164,7 @@ def hSysU : Handler := fun impl => do
   let fallbackTaken := st.contacts.any fun c => retryHosts.contains c.host
   let final : Option OriginEntry := match rr with | .response e _ => some e | _ => none
   let faulted := match final with | some e => e.readErrAt.isSome | none => false
-  let copyBuildOnly : Bool :=
-    match main, copy with
-    | some (mr, _, _), some (cr, _) => (cfg.build mr.internal).isNone && (cfg.build cr.internal).isSome
-    | none, some (cr, _) => (cfg.build cr.internal).isSome
-    | _, _ => false
-  let cls := ",".intercalate (
-
-    (if copyBuildOnly then ["C20-a"] else []) ++
-    (match rr with | .panicked => ["C05-b"] | _ => []))
+  let cls := ""
   let oracle :=
     match obs? with
     | .error _ => "na"
